@@ -117,7 +117,7 @@ func PathOf(v ssa.Value) string {
 // hasher, a builder). "" = no such reading.
 func (st *provState) helperResult(c *ssa.CallCommon, idx int) string {
 	fn := StaticCallee(c)
-	if !PrivateHelper(fn) || st.depth >= 2 || len(fn.Params) != len(c.Args) || len(fn.Blocks) > 12 {
+	if !(PrivateHelper(fn) || PureAccessor(fn)) || st.depth >= 2 || len(fn.Params) != len(c.Args) || len(fn.Blocks) > 12 {
 		return ""
 	}
 	sub := &provState{memo: map[ssa.Value]string{}, busy: map[ssa.Value]bool{}, bind: map[*ssa.Parameter]string{}, depth: st.depth + 1}
@@ -203,6 +203,27 @@ func (st *provState) helperResult(c *ssa.CallCommon, idx int) string {
 		out = p
 	}
 	return out
+}
+
+// PureAccessor: an (exported) module method of a handful of blocks that only reads — no store, map
+// update, send, goroutine, defer, and no call other than a builtin (`func (t Tag) Value() string {
+// if len(t) < 2 { return "" }; return t[1] }`): what it returns is an expression of its receiver.
+func PureAccessor(fn *ssa.Function) bool {
+	if fn == nil || !InModuleFn(fn) || fn.Parent() != nil || fn.Signature.Recv() == nil || len(fn.Blocks) == 0 || len(fn.Blocks) > 4 || len(fn.Params) != 1 {
+		return false
+	}
+	pure := true
+	Instrs(fn, func(in ssa.Instruction) {
+		switch x := in.(type) {
+		case *ssa.Store, *ssa.MapUpdate, *ssa.Send, *ssa.Go, *ssa.Defer, *ssa.Select:
+			pure = false
+		case *ssa.Call:
+			if _, isB := x.Call.Value.(*ssa.Builtin); !isB {
+				pure = false
+			}
+		}
+	})
+	return pure
 }
 
 // PathOfIn: access path of a value of a callee, written in the caller's
@@ -327,6 +348,12 @@ func StaticCallee(c *ssa.CallCommon) *ssa.Function {
 
 func constString(c *ssa.Const) string {
 	if c.Value == nil {
+		// the zero value of a named struct type (a context key written `requestIDKey{}`) is not nil
+		if n, ok := c.Type().(*types.Named); ok {
+			if _, isStruct := n.Underlying().(*types.Struct); isStruct {
+				return "zero:" + n.Obj().Name()
+			}
+		}
 		return "const:nil"
 	}
 	if c.Value.Kind() == constant.String {
